@@ -242,57 +242,113 @@ def check_get_extrema(ctx, db):
     ctx.check(rs.count('min') == rs.count('max') and rs.count('min') >= 4, 'R-MINMAX', 'Repetition::get_extrema/min-max-balance', f.loc(), 'explicit kinds keep one running min and one running max per axis (%d + %d)' % (rs.count('min'), rs.count('max')))
 
 
-def canon_apply(fn, abstract_translate):
-    ren = clone.Renamer(fn, params_by_name=True)
-
-    def hook(n):
-        if not abstract_translate:
-            return None
-        if n.k == 'VarDecl' and n.n == 'offset_p':
-            return 'OFFSETPTR'
-        if n.k == 'CXXMemberCallExpr' and (n.callee or '').endswith('::translate'):
-            return 'TRANSLATE'
-        if n.k == 'CompoundAssignOperator' and n.op == '+=' and 'origin' in n.child('lhs').text():
-            return 'TRANSLATE'
-        return None
-    txt = clone.canon(fn.body, fn, subst=[(r'gdstk::', ''), (r'<IntegralCast:[^>]*>', ''), (r'\b(Polygon|FlexPath|RobustPath|Label|Reference)\b', 'ELEM')], ren=ren, hook=hook)
-    if abstract_translate:
-        txt = re.sub(r'(\s*TRANSLATE\n)+', '\n    TRANSLATE\n', txt)
-    return txt
-
-
 def check_apply_repetition(ctx, db):
+    """apply_repetition (five element kinds), decided from the CFG and the affine loop summary - no sibling text is compared:
+      none-returns      the only early exit before the offsets are taken is guarded by `repetition.type == None`;
+      clears-original   no path from entry to exit avoids repetition.clear() except through that guard;
+      clear-before-copy clear() dominates every copy_from (copies carry no repetition);
+      count-1-copies    the copy loop runs offsets.count - 1 times, iteration k copies *this, moves the copy by offset k + 1
+                        (both components) and appends it once."""
+    from .. import loops as LP, deps
+    from ..linear import lin_add
     kinds = ['Polygon', 'FlexPath', 'RobustPath', 'Label', 'Reference']
     fns = {k: db.fn('gdstk::%s::apply_repetition' % k) for k in kinds}
-    for f in fns.values():
-        ctx.touch(f)
-    clone.check_family(ctx, 'R-CLONE', 'apply_repetition[translate()]', [(k, fns[k].loc(), canon_apply(fns[k], False)) for k in kinds[:3]], 3)
-    clone.check_family(ctx, 'R-CLONE', 'apply_repetition[origin+=]', [(k, fns[k].loc(), canon_apply(fns[k], False)) for k in kinds[3:]], 2)
-    clone.check_family(ctx, 'R-CLONE', 'apply_repetition[skeleton]', [(k, fns[k].loc(), canon_apply(fns[k], True)) for k in kinds], 5)
-    # absolute obligations on each
+    vals = tables.enum_values(db, RT)
     for k, f in fns.items():
-        body = [s for s in f.body.c if s is not None]
+        ctx.touch(f)
+        g = f.cfg
         key = '%s::apply_repetition' % k
-        first = body[0]
-        ok = first.k == 'IfStmt' and first.child('cond').text() == '(this->repetition.type == gdstk::RepetitionType::None)' and first.child('then').k == 'ReturnStmt'
-        ctx.check(ok, 'R-SHAPE', key + '/none-returns', f.loc(), 'returns immediately when there is no repetition')
         calls = [c for c in f.walk() if c.k == 'CXXMemberCallExpr']
-        names = [(c.callee or '').split('::')[-2:] for c in calls]
         go = next((c for c in calls if (c.callee or '') == 'gdstk::Repetition::get_offsets'), None)
-        cl = next((c for c in calls if (c.callee or '') == 'gdstk::Repetition::clear'), None)
-        cp = next((c for c in calls if (c.callee or '').endswith('::copy_from')), None)
-        ok = go is not None and cl is not None and cp is not None and go.id < cl.id < cp.id and f.cfg.node_dominates(cl, cp)
+        cl = [c for c in calls if (c.callee or '') == 'gdstk::Repetition::clear' and lvalue_key(_strip_casts(c.child('obj'))) == 'this->repetition']
+        cps = [c for c in calls if (c.callee or '').endswith('::copy_from') and (c.callee or '').split('::')[-2] == k]
+        if go is None or not cps:
+            raise AnalysisBroken('%s: get_offsets / copy_from not found' % key)
+        guard = None
+        for i in f.walk():
+            if i.k != 'IfStmt':
+                continue
+            c = _strip_casts(i.child('cond'))
+            if c.k == 'BinaryOperator' and c.op == '==':
+                l, r = _strip_casts(c.child('lhs')), _strip_casts(c.child('rhs'))
+                ks = {lvalue_key(l), lvalue_key(r)}
+                en = [z for z in (l, r) if z.k == 'DeclRefExpr' and z.dk == 'enum']
+                if 'this->repetition.type' in ks and en and en[0].cv == vals.get('None') and i.child('then').stmts()[0].k == 'ReturnStmt':
+                    guard = i
+        ok = guard is not None and g.node_dominates(guard.child('cond'), go)
+        ctx.check(ok, 'R-SHAPE', key + '/none-returns', f.loc(), 'returns immediately when there is no repetition (tested on repetition.type, before the offsets are taken)',
+                  'the early exit is not `repetition.type == None` (a repetition that denotes only the zero vector is then never cleared)')
+        avoid = {x.id for c in cl for x in c.walk()} | {c.id for c in cl}
+        if guard is not None:
+            avoid |= {x.id for x in guard.child('then').walk()}
+        path = g.path_avoiding((g.entry, 0), lambda b, i, nid: b == g.exit and i == -1, lambda b, i, nid: nid in avoid)
+        ctx.explored['paths'] += 1
+        ctx.check(bool(cl) and path is None, 'R-MUSTPASS', key + '/clears-original', f.loc(), 'every path on which the element had a repetition passes through repetition.clear(): the original keeps none',
+                  'a path reaches the end of the function without repetition.clear() although the element had a repetition (%s): the original keeps it and is expanded again' % (g.describe_path(path) if path else 'no clear() call'),
+                  path=g.describe_path(path) if path else None)
+        ok = bool(cl) and all(go.id < cl[0].id < cp.id and g.node_dominates(cl[0], cp) for cp in cps)
         ctx.check(ok, 'R-PAIRCALL', key + '/clear-before-copy', f.loc(), 'offsets are taken, then the repetition is cleared on every path before any copy is made (copies carry none; the original keeps none)',
                   'repetition.clear() does not dominate the copies (or does not follow get_offsets): copies would carry the repetition / the original keeps it on some path')
-        loop = next((l for l in f.walk() if l.k == 'ForStmt'), None)
-        ok = loop is not None
-        if ok:
-            iv = next((v for v in loop.child('init').walk() if v.k == 'VarDecl'), None)
-            ok = iv is not None and iv.child('init').text().replace('<IntegralCast:unsigned long>', '') == '(offsets.count - 1)'
-            op = next((v for v in f.walk() if v.k == 'VarDecl' and v.n == 'offset_p'), None)
-            ok = ok and op is not None and '(offsets.items + 1)' in op.child('init').text()
-            ok = ok and cp is not None and any(x is cp for x in loop.walk()) and cp.args[0].text() == '(*this)'
-        ctx.check(ok, 'R-SHAPE', key + '/count-1-copies', f.loc(), 'count - 1 copies of *this are made, starting from the second offset')
+        # the copy loop
+        cp = cps[0]
+        L = LP.enclosing_loop(cp)
+        ak = lvalue_key(_strip_casts(go.args[0]))
+        if L is None or ak is None:
+            raise AnalysisBroken('%s: copy loop not found' % key)
+        lp = LP.Loop(f, L)
+        trip = lp.trip()
+        problems = []
+        if trip is None:
+            raise AnalysisBroken('%s: copy loop at %s is not a counting loop' % (key, L.loc()))
+        if lin_add(trip, {ak + '.count': 1, 1: -1}, -1):
+            problems.append('the loop makes %s copies, not offsets.count - 1' % trip)
+        if not (LP.unconditional_in(LP_stmt(cp), L) and _strip_casts(cp.args[0]).k == 'UnaryOperator' and _strip_casts(_strip_casts(cp.args[0]).child('sub')).k == 'CXXThisExpr'):
+            problems.append('the copy is not an unconditional copy_from(*this)')
+        aps = [c for c in L.walk() if c.k == 'CXXMemberCallExpr' and (c.callee or '').split('::')[-1] in ('append', 'append_unsafe') and _strip_casts(c.child('obj')).k == 'DeclRefExpr' and _strip_casts(c.child('obj')).dk == 'param']
+        if len(aps) != 1 or not LP.unconditional_in(LP_stmt(aps[0]), L):
+            problems.append('the copy is not appended to the result exactly once per iteration')
+        # which offset moves copy k: every read of the offsets array inside the loop
+        D = deps.Deps(f)
+        reads = []
+        for x in L.walk():
+            ptr = None
+            if x.k == 'UnaryOperator' and x.op == '*':
+                ptr = x.child('sub')
+            elif x.k == 'ArraySubscriptExpr':
+                ptr = x.child('base') or x.c[0]
+            elif x.k == 'MemberExpr' and x.arrow:
+                ptr = x.child('base')
+            elif x.k == 'CXXOperatorCallExpr' and x.op == '[]' and lvalue_key(_strip_casts(x.args[0])) == ak:
+                reads.append((x, lp.addr(x), 1))
+                continue
+            if ptr is None:
+                continue
+            r = D.root_of_ptr(ptr)
+            if r is not None and r[0] == ak:
+                unit = 2 if LP._pointee(_strip_casts(ptr).t) in ('double',) else 1
+                reads.append((x, lp.addr(x) if x.k != 'MemberExpr' else lp.lin(ptr, x), unit))
+        if not reads:
+            raise AnalysisBroken('%s: the copy loop does not read the offsets' % key)
+        comps = set()
+        for x, lin, unit in reads:
+            if lin is None:
+                raise AnalysisBroken('%s: offset access `%s` is not affine in the loop' % (key, x.text()[:40]))
+            rest = lin_add(lin, {ak + '.items': 1}, -1)
+            bk = rest.pop(LP.K, 0)
+            c0 = rest.pop(1, 0)
+            if rest or bk != unit or c0 // unit != 1:
+                problems.append('copy k is moved by offset %s + %s k (in units of %d scalars): it must be offset k + 1 (offset 0 is the original itself)' % (c0, bk, unit))
+            comps.add(c0 % unit if unit == 2 else 'v')
+        if not problems and comps not in ({'v'}, {0, 1}):
+            problems.append('only component(s) %s of the offset are used' % sorted(comps))
+        ctx.check(not problems, 'R-SHAPE', key + '/count-1-copies', f.loc(), 'count - 1 copies of *this are made, copy k moved by offset k + 1 and appended once', '; '.join(problems))
+
+
+def LP_stmt(n):
+    x = n
+    while x.parent is not None and x.parent.k not in ('CompoundStmt', 'ForStmt', 'WhileStmt', 'DoStmt', 'IfStmt'):
+        x = x.parent
+    return x
 
 
 def cond_norm(c):
